@@ -1,0 +1,55 @@
+//go:build verif
+
+// Contracts for the deductive checks under /verif (comment-only; no code).
+// Syntax: see /verif/DESIGN.md §2. Keyed by function name and loop ordinal.
+
+package io
+
+// ---- protobuf wire format (written from the protobuf encoding spec, not from the code)
+//
+//@ spec pbVarintLen(v uint64) int = ite(v < 128, 1, ite(v < 16384, 2, ite(v < 2097152, 3, ite(v < 268435456, 4,
+//@   | ite(v < 34359738368, 5, ite(v < 4398046511104, 6, ite(v < 562949953421312, 7, ite(v < 72057594037927936, 8,
+//@   | ite(v < 9223372036854775808, 9, 10)))))))))
+//
+// length-delimited field with a 1-byte tag: tag + varint(len) + payload
+//@ spec pbLenField(n int) int = 1 + pbVarintLen(uint64(n)) + n
+// PBLink message: Hash (1, bytes) + Name (2, string) + Tsize (3, varint)
+//@ spec pbLinkMsg(nameLen int, cidLen int, tsize uint64) int = pbLenField(cidLen) + pbLenField(nameLen) + 1 + pbVarintLen(tsize)
+// PBNode.Links entry (field 2, embedded message)
+//@ spec pbLinkEntry(nameLen int, cidLen int, tsize uint64) int = pbLenField(pbLinkMsg(nameLen, cidLen, tsize))
+//
+// UnixFS Data for a basic directory: Type=Directory (2 bytes), optional mode (field 7 varint),
+// optional mtime (field 8 message: seconds int64 varint, optional nanos fixed32)
+//@ spec pbMtimeMsg(secs int64, nanos int) int = 1 + ite(secs >= 0, pbVarintLen(uint64(secs)), 10) + ite(nanos > 0, 5, 0)
+//@ spec pbUnixfsDirInner(perms uint32, hasMode bool, hasTime bool, secs int64, nanos int) int = 2 + ite(hasMode, 1 + pbVarintLen(uint64(perms)), 0) + ite(hasTime, pbLenField(pbMtimeMsg(secs, nanos)), 0)
+//@ spec pbUnixfsDirData(perms uint32, hasMode bool, hasTime bool, secs int64, nanos int) int = pbLenField(pbUnixfsDirInner(perms, hasMode, hasTime, secs, nanos))
+
+// abstractions of dependencies
+//@ spec cidByteLen(c cid.Cid) int
+//@ spec timeIsZero(t time.Time) bool
+//@ spec timeUnix(t time.Time) int64
+//@ spec timeNanos(t time.Time) int
+
+//@ func ext (github.com/ipfs/go-cid.Cid).Bytes
+//@   ensures len(result) == cidByteLen(c)
+//@ func ext (time.Time).IsZero
+//@   ensures result == timeIsZero(t)
+//@ func ext (time.Time).Unix
+//@   ensures result == timeUnix(t)
+//@ func ext (time.Time).Nanosecond
+//@   ensures result == timeNanos(t)
+
+//@ func varintLen
+//@   prop C17
+//@   arith bv
+//@   ensures[wire_len] result == pbVarintLen(v)
+
+//@ func linkSerializedSize
+//@   prop C17
+//@   arith bv
+//@   ensures[wire_len] result == pbLinkEntry(len(name), cidByteLen(c), tsize)
+
+//@ func dataFieldSerializedSize
+//@   prop C17
+//@   arith bv
+//@   ensures[wire_len] result == pbUnixfsDirData(unixPermsOf(mode), mode != 0, !timeIsZero(mtime), timeUnix(mtime), timeNanos(mtime))
